@@ -38,3 +38,10 @@ Definition ring_meets_line (r : ring) (l : list pt) : bool :=
   | _ => existsb (fun e => ring_meets_seg r (fst e) (snd e)) (combine (removelast l) (tl l))
   end.
 Definition hits_line (ps : list (option ring)) (l : list pt) : list Z := hits ring_meets_line ps l.
+
+(* a region with a hole: an outer ring minus the open inside of a CONVEX hole ring.  A cell (a polygon that meets the outer
+   ring's region) misses it exactly when it lies in the open hole, i.e. - the hole being convex - when every one of its
+   vertices is strictly inside the hole. *)
+Definition ring_meets_holed (r : ring) (oh : ring * ring) : bool :=
+  ring_meets_ring r (fst oh) && negb (forallb (fun v => strictly_inside (snd oh) v && negb (on_boundary (snd oh) v)) r).
+Definition hits_holed (ps : list (option ring)) (outer hole : ring) : list Z := hits ring_meets_holed ps (outer, hole).
